@@ -257,7 +257,7 @@ def concretize(node, tg):
                 return ["v", tg.str(node[1]) if node[2] in ("s", "t") else tg.int(node[1]), node[2]]
             if h == "bp":
                 v = tg.int(node[1])
-                return ["bpv", "p%d" % (tg.n - 1), v]
+                return ["bpv", "p%d" % (tg.n - 1), v, (node[2] if len(node) > 2 else 0) % 4]
             if h == "lim":
                 return ["limv", tg.small(node[1], 6)]
             if h == "inl":
@@ -478,6 +478,17 @@ def bx(n, env):
     if h == "raw":  # python value used directly as an operand (coerced by the other side)
         return n[1]
     if h == "bpv":
+        # how the value of the named bind arrives ("bind source"): 0 execute()-time parameter, 1 plain value on the
+        # bindparam, 2 callable_ on the bindparam, 3 statement.params(); none of them is part of the cache key
+        src = n[3] if len(n) > 3 else 0
+        STATS["bind_src:%d" % src] += 1
+        if src == 1:
+            return bindparam(n[1], n[2], type_=Integer)
+        if src == 2:
+            return bindparam(n[1], callable_=(lambda v=n[2]: v), type_=Integer)
+        if src == 3:
+            env.params.setdefault("__post__", {})[n[1]] = n[2]
+            return bindparam(n[1], type_=Integer)
         env.params[n[1]] = n[2]
         return bindparam(n[1], type_=Integer)
     if h == "ar":
@@ -575,8 +586,8 @@ _slit = st.tuples(st.just("ls"), _base).map(list)
 _ilitx = st.one_of(
     _ilit, _ilit, _ilit,
     st.tuples(st.just("lx"), _base).map(list),
-    st.tuples(st.just("bp"), _base).map(list),
-    st.tuples(st.just("bp"), _base).map(list),
+    st.tuples(st.just("bp"), _base, st.integers(0, 3)).map(list),
+    st.tuples(st.just("bp"), _base, st.integers(0, 3)).map(list),
     st.tuples(st.just("lt"), _base, st.sampled_from(["i", "I", "D1", "D2", "N"])).map(list),
 )
 
@@ -824,9 +835,9 @@ def stmt_desc(depth=1):
 SEL_TOGGLES = [
     "distinct", "outer0", "full0", "label0", "limit", "offset", "for_update", "prefix", "col_order", "label_style",
     "lit_type", "cast_type", "literal_execute", "where_drop", "order_desc", "op_flip", "in_neg", "wrap_name", "setop_op",
-    "join_drop", "loader", "opt_drop", "total", "wlc_flag", "having_op", "agg_fn", "where_dup", "xopt", "nocache_type", "delta_type", "xjoin", "wlc_op", "type_arg", "type_mode", "lk_kind", "lk_neg", "lk_esc",
+    "join_drop", "loader", "opt_drop", "total", "wlc_flag", "having_op", "agg_fn", "where_dup", "xopt", "nocache_type", "delta_type", "xjoin", "wlc_op", "type_arg", "type_mode", "lk_kind", "lk_neg", "lk_esc", "bind_src1", "bind_src2", "bind_src3",
 ]
-DML_TOGGLES = ["ret", "ret_more", "pcols_more", "many", "val_drop", "where_drop", "op_flip", "lit_type", "in_neg", "sync", "sval", "literal_execute", "nocache_type", "delta_type", "type_arg", "type_mode", "lk_kind", "lk_neg", "lk_esc"]
+DML_TOGGLES = ["ret", "ret_more", "pcols_more", "many", "val_drop", "where_drop", "op_flip", "lit_type", "in_neg", "sync", "sval", "literal_execute", "nocache_type", "delta_type", "type_arg", "type_mode", "lk_kind", "lk_neg", "lk_esc", "bind_src1", "bind_src2", "bind_src3"]
 
 
 def toggles_for(desc):
@@ -911,6 +922,13 @@ def _toggle(d, name):
                 return True
             if n[0] == "ls":
                 n[:] = ["lt", n[1], "t"]
+                return True
+        _walk(d, f)
+    elif name in ("bind_src1", "bind_src2", "bind_src3"):
+        def f(n):
+            if n[0] == "bp":
+                cur = n[2] if len(n) > 2 else 0
+                n[:] = ["bp", n[1], (cur + int(name[-1])) % 4]
                 return True
         _walk(d, f)
     elif name in ("lk_kind", "lk_neg", "lk_esc"):
@@ -1294,6 +1312,11 @@ XOPTS = {"foo": {"foo": 1}, "yield": {"yield_per": 2}, "populate": {"populate_ex
 
 def _build_select(d, order):
     b = _build_select_inner(d, order)
+    post = b.params.pop("__post__", None) if b.params else None
+    if post:
+        b.stmt = b.stmt.params(post)  # bind source 3: values attached with statement.params()
+    if not b.params:
+        b.params = None
     x = d.get("xopt")
     if x and not (x == "yield" and b.unique):  # yield_per + unique() is a documented error
         b.stmt = b.stmt.execution_options(**XOPTS[x])
@@ -1357,6 +1380,13 @@ def _build_dml(d, order):
     k = d["k"]
     exec_params = None
     exec_opts = {}
+    # params() is not available on DML statements: bind source 3 arrives at execute() time instead
+    def _nopost(n):
+        if n[0] == "bpv" and len(n) > 3 and n[3] == 3:
+            n[3] = 0
+        return False
+
+    _walk(d, _nopost)
     if k == "ins":
         vals = {}
         if d["many"]:
